@@ -65,6 +65,8 @@ type mapCall struct {
 	// NilEvery > 0: chunks whose start is a multiple of NilEvery return a nil value (and no error);
 	// they still count as one result each
 	NilEvery int `json:"nil_every,omitempty"`
+	// ViaPromise: the call is PromiseMap and the result is what its promise's Wait delivers (twice)
+	ViaPromise bool `json:"via_promise,omitempty"`
 }
 
 type childJob struct {
@@ -287,7 +289,19 @@ func runMap(c mapCall) {
 	var res []interface{}
 	var err error
 	seen := &spanLog{}
-	if !within(20*time.Second, func() { res, err = concurrent.Map(mapper{0, c.Len, c.FailAt, c.NilEvery, seen}, c.Threads, c.Chunk) }) {
+	call := func() { res, err = concurrent.Map(mapper{0, c.Len, c.FailAt, c.NilEvery, seen}, c.Threads, c.Chunk) }
+	if c.ViaPromise {
+		call = func() {
+			p := concurrent.PromiseMap(mapper{0, c.Len, c.FailAt, c.NilEvery, seen}, c.Threads, c.Chunk)
+			r := <-p.Wait()
+			res, _ = r.Value.([]interface{})
+			err = r.Err
+			if again := <-p.Wait(); (again.Err == nil) != (r.Err == nil) || fmt.Sprint(again.Value) != fmt.Sprint(r.Value) {
+				childFail("promise-map-waits-differ", "PromiseMap(len %d, threads %d, chunk %d): two Waits delivered (%v, %v) and (%v, %v)", c.Len, c.Threads, c.Chunk, r.Value, r.Err, again.Value, again.Err)
+			}
+		}
+	}
+	if !within(20*time.Second, call) {
 		childFail("map-hangs", "Map(len %d, threads %d, chunk %d) did not return within 20 s", c.Len, c.Threads, c.Chunk)
 	}
 	if c.FailAt >= 0 && c.FailAt < c.Len {
@@ -472,7 +486,7 @@ func TestMap(t *testing.T) {
 			var b mapBatch
 			n := rapid.IntRange(1, 20).Draw(t, "ncalls")
 			for i := 0; i < n; i++ {
-				b.Calls = append(b.Calls, mapCall{Len: rapid.OneOf(rapid.IntRange(0, 200), rapid.IntRange(0, 10)).Draw(t, "len"), Chunk: rapid.IntRange(1, 50).Draw(t, "chunk"), Threads: rapid.IntRange(1, 16).Draw(t, "threads"), FailAt: rapid.SampledFrom([]int{-1, -1, -1, 0, 3, 40}).Draw(t, "fail-at"), NilEvery: rapid.SampledFrom([]int{0, 0, 1, 2, 3}).Draw(t, "nil-every")})
+				b.Calls = append(b.Calls, mapCall{Len: rapid.OneOf(rapid.IntRange(0, 200), rapid.IntRange(0, 10)).Draw(t, "len"), Chunk: rapid.IntRange(1, 50).Draw(t, "chunk"), Threads: rapid.IntRange(1, 16).Draw(t, "threads"), FailAt: rapid.SampledFrom([]int{-1, -1, -1, 0, 3, 40}).Draw(t, "fail-at"), NilEvery: rapid.SampledFrom([]int{0, 0, 1, 2, 3}).Draw(t, "nil-every"), ViaPromise: rapid.IntRange(0, 2).Draw(t, "via-promise") == 0})
 			}
 			return b
 		},
@@ -489,9 +503,12 @@ func TestMap(t *testing.T) {
 				if c.FailAt >= 0 && c.FailAt < c.Len && c.Len > 3*c.Chunk {
 					l = append(l, "failing-chunk-with-chunks-unsent")
 				}
+				if c.ViaPromise && c.FailAt >= 0 && c.FailAt < c.Len {
+					l = append(l, "promise-map-with-a-failing-chunk")
+				}
 			}
 			return dedup(l)
-		}})
+		}, MinFrac: map[string]float64{"promise-map-with-a-failing-chunk": 0.3}})
 }
 
 func dedup(a []string) []string {
